@@ -12,7 +12,7 @@ CLAIMED = {
          'TLC model checking + trace validation of replayed TLC behaviours (Trace_Router.tla, check C01)'),
  'C02': ('Resolve.tla is the documented resolution procedure as a function of the live pattern set; TLC generates every ordered registration sequence (depth 4 over 10 competing patterns) and the harness probes every path up to length L over a 5-letter alphabet; each observed outcome must be a member of the admissible set Res (404 iff empty). Tree.tla (structural transcription of internal/tree) is model-checked to refine Resolve.tla on every registration order (MC_Tree: TableRef, SoundRef, AddOnlyRef) and its shape is compared with the dumped shape of the real tree (drift report).', '5 C02 / 11.5',
          'TLC-generated registration orders x exhaustive path set, outcome membership in Resolve.tla admissible set'),
- 'C03': ('Router.tla Handle/Remove/Clean actions; TLC enumerates all histories to depth 2 from base tables with >=6 literal siblings / top-level literals / split-prone pairs, the battery (Routes, witness paths x methods, frame comparison with the battery before the removal) is validated by the trace spec; C03_Frame and C03_Reach are also model-checked on the specification; pools R (a route losing all of its >= 5 children in every order), Y (TRACE as ordinary method), FC (routes at a cleaned prefix) run unsampled; the repository's own tests are validated through the call-trace hooks (Trace_Tree.tla).', '5 C03 / 11.5',
+ 'C03': ('Router.tla Handle/Remove/Clean actions; TLC enumerates all histories to depth 2 from base tables with >=6 literal siblings / top-level literals / split-prone pairs, the battery (Routes, witness paths x methods, frame comparison with the battery before the removal) is validated by the trace spec; C03_Frame and C03_Reach are also model-checked on the specification; pools R (a route losing all of its >= 5 children in every order), Y (TRACE as ordinary method), FC (routes at a cleaned prefix) run unsampled; the tests of the repository itself are validated through the call-trace hooks (Trace_Tree.tla).', '5 C03 / 11.5',
          'TLC model checking (C03_Frame, C03_Reach) + trace validation of all depth-2 histories'),
  'C04': ('AllowSet/RootAllowOK in RouterOps.tla; every OPTIONS/405 Allow header (read through the node captured at first registration), Node().Methods(), Routes() entry and OPTIONS * reply recorded after every TLC-generated history (pool C with/without WithTrace, method-list pool X) is compared as a set with the specification table.', '5 C04',
          'trace validation of TLC-generated histories against AllowSet / RootAllowOK'),
